@@ -144,7 +144,9 @@ pub fn c11(ctx: &mut Ctx) {
     assert_eq!(menu.len() as u64, KINDS);
     let nseq = seq_count(KINDS, depth);
     super::bytes::placement_bound(ctx);
-    ctx.run_space("tile-sequences-x-tails", nseq * TAILS * crate::engine::place::RESIDUES, |idx, l| {
+    // in the unoptimised second build (common::unoptimised_build_pass) only the long inputs are run
+    let child = super::common::is_frames_child();
+    ctx.run_space("tile-sequences-x-tails", if child { 0 } else { nseq * TAILS * crate::engine::place::RESIDUES }, |idx, l| {
         let (idx, residue) = crate::engine::place::split(idx, true);
         let seq = seq_decode(KINDS, idx / TAILS);
         let mut v = Vec::new();
@@ -195,6 +197,9 @@ pub fn c11(ctx: &mut Ctx) {
         let sp = super::bytes::giants_runs_space();
         ctx.bound("giant runs", "runs of 65536 / 65537 / 200000 header-only packets of each of 10 packet types; 6 SDES packets with one chunk of more than 65535 bytes of items");
         sp.run(ctx, &sp.name, 0, |s, l| c11_case(s, l));
+    }
+    if child {
+        return;
     }
     // iterator call histories: every sequence of next / nth / take-count calls up to a depth, then collect / count /
     // last, on the compound of every tile sequence of length 1..=3, against what plain next() calls give (which the
@@ -301,6 +306,7 @@ pub fn c11(ctx: &mut Ctx) {
     ctx.require_hit("rejected (no exact tiling)");
     ctx.require_hit("first failing tile: #1");
     ctx.require_hit("first failing tile: #2");
+    super::common::unoptimised_build_pass(ctx, "the long inputs (sequences with a 262144-byte tile, chains of up to 1025 tiles, runs of up to 200000 header-only packets, giant SDES chunks)");
 }
 
 // ---------------------------------------------------------------------------------------------
@@ -521,9 +527,9 @@ pub fn c14_case(ms: &[Member], l: &mut Local) {
 }
 
 pub fn c14(ctx: &mut Ctx) {
-    ctx.rule = "all member lists of length 0..=d over a 20-kind menu (the 8 builder types unpadded, 5 padded, one invalid, PacketBuilder-wrapped ones, a third-party writer, nested compounds incl. empty and last-padded), and all ordered pairs of base-set packets; per list: calculate_size is Ok iff every member is valid and only the last requests padding (reference predicate), size = sum of the members' own sizes, bytes = concatenation of the members' own images, Compound::parse + iteration yields one packet per leaf equal to the leaf parsed alone; non-trivial = the compound was accepted and written, distinct by fingerprint of its bytes".into();
+    ctx.rule = "all member lists of length 0..=d over a 27-kind menu (the 8 builder types unpadded, 5 padded, one invalid, PacketBuilder-wrapped ones incl. a padded one of every packet type, a third-party writer, nested compounds incl. empty and last-padded), and all ordered pairs of base-set packets; per list: calculate_size is Ok iff every member is valid and only the last requests padding (reference predicate), size = sum of the members' own sizes, bytes = concatenation of the members' own images, Compound::parse + iteration yields one packet per leaf equal to the leaf parsed alone; non-trivial = the compound was accepted and written, distinct by fingerprint of its bytes".into();
     let depth = ctx.tier.pick(4u32, 5u32);
-    ctx.bound("member lists", format!("length 0..={} over 20 kinds", depth));
+    ctx.bound("member lists", format!("length 0..={} over 27 kinds", depth));
     ctx.bound("pairs", "all ordered pairs of the base set W (~190^2)");
     let sp = targets::compound_space(depth);
     let get = &sp.get;
